@@ -40,15 +40,22 @@ if confirm and os.path.isdir(wt):
     meta["demo_without_patch_passes"] = ("test result: ok" in out2) and "FAILED" not in out2
     meta["demo_cmd"] = f"cp demo.rs <worktree>/{'gsd-parser/' if is_gsd else ''}tests/{demo_name}.rs && cargo test --offline {pkg} --test {demo_name}"
     sh("git checkout -- . && git clean -fdq -e target", cwd=wt)
-# run my checks against the mutation
-rc, out = sh(f"git -C /repo apply {patch}")
+# run my checks against the mutation — in an isolated sandbox copy of /repo and /verif (so that the
+# real /repo is never touched and work in /verif can go on): /tmp/seedbox/{repo,verif}
+BOX = "/tmp/seedbox"
+if "--refresh" in sys.argv or not os.path.isdir(BOX + "/verif"):
+    sh(f"mkdir -p {BOX} && rsync -a --delete --exclude target /repo/ {BOX}/repo/ && rsync -a --delete --exclude out --exclude seeded /verif/ {BOX}/verif/")
+    sh(f"sed -i 's#path = \"/repo#path = \"{BOX}/repo#g' {BOX}/verif/harness/Cargo.toml")
+    sh(f"sed -i 's#/repo/src/consts.rs#{BOX}/repo/src/consts.rs#' {BOX}/verif/tools/extract_consts.py")
+sh(f"git -C {BOX}/repo checkout -- .")
+rc, out = sh(f"git -C {BOX}/repo apply {patch}")
 assert rc == 0, out
 fired = {}
 try:
-    props = sorted(f[:-5] for f in os.listdir("/verif/props") if f.endswith(".json"))
+    props = sorted(f[:-5] for f in os.listdir(BOX + "/verif/props") if f.endswith(".json"))
     for p in props:
         t0 = time.time()
-        rc, out = sh(f"./check {p} --tier quick", cwd="/verif", timeout=3000)
+        rc, out = sh(f"./check {p} --tier quick", cwd=BOX + "/verif", timeout=3000)
         v = [l for l in out.splitlines() if l.startswith("VIOLATION")]
         if v:
             rep = re.search(r"replay=(\S+)", v[0]).group(1)
@@ -60,7 +67,7 @@ try:
             except Exception: pass
             fired[p] = {"line": v[0][:200], "clause": clause}
 finally:
-    sh("git -C /repo checkout -- .")
+    sh(f"git -C {BOX}/repo checkout -- .")
 meta["checks_fired"] = fired
 meta["caught_by_own_property"] = prop in fired and "no-failing-input-found" not in fired[prop]["line"]
 meta["what_i_ran"] = "tools/seed_eval.py: patch applied to /repo, every claimed quick check run, patch undone" + ("; suite+demo confirmed in scratch worktree" if confirm else "")
